@@ -14,7 +14,7 @@ import json, os
 from lib import vf
 
 INVARIANTS = ("ForwardOnlyRouted AnsweredLocally EveryAnswerHasAKind PathStaysAbsolute EscapesSurvive "
-              "OnlyStripAndPrepend QueryMergedInFront HostOnlyOnRequest PeerIsTold TLSHeaderTruthful "
+              "OnlyStripAndPrepend QueryMergedInFront SimultaneousIndependent HostOnlyOnRequest PeerIsTold TLSHeaderTruthful "
               "RequestedHostIsTold RequestedPortIsTold STSOnlyOnTLS RedirectStatusIs3xx NeverRedirectsToItself "
               "RedirectCarriesQuery FaultNotHidden HistoryIndependent ConnectionIndependent NoRoutePageWasConfigured STSOnEveryTLSAnswer")
 
@@ -252,11 +252,12 @@ def run(ctx):
         "never sliced (round 4): request-targets ending in a bare '?' (the RAW request-target at the upstream is compared; with a route query the bare '?' is not asked); proxy.gzip.contenttype set (^text/) and not set x answers that already carry Content-Encoding deflate / br / identity / compress to a client accepting gzip, and plain answers to a client not asking for gzip: headers and body unchanged; the route's instance refuses the connection (body-less GET / DELETE, host option none / dst / name, with and without a route WITHOUT a host matching the same path): a 5xx of fabio and no upstream at all sees the request",
         "never sliced: upstream statuses 200, 299, 300, 404, 499, 500, 599, 600, 799, 999 and the no-route status, each with and without an access logger configured; upstreams that die before their answer is complete (closed before any header; Content-Length announced, closed after 10 000 of 32 769 body bytes; chunked without the last chunk after 10 000 / 0 body bytes, closed or reset): the client must either see the exchange fail or get a 5xx from fabio, never a complete-looking answer with part of the body missing (what the upstream had received is not judged in these cases)",
         "strip leaving an empty or relative rest together with prepend follows the documentation's reading: strip yields an absolute path ('forward /path/to/file as /to/file'), 'prepending is done after stripping' (/strip -> /pre/, /stripme/x -> /pre/me/x, strip=/strip/ on /strip/a/b -> /pre/a/b)",
+        "never sliced (round 6): 8 requests that are in the proxy at the SAME moment through ONE route - sent over connections opened beforehand to one of fabio's own listeners, released together and each repeated 400 / 1200 times over its connection (40 / 150 times in the run with the race detector) - with different short queries (none, one, two parameters, an escape) and paths, x target URL with a query of 1 / 2 / 3 parameters or none x strip {none, /sim} x {GET, DELETE} x {plain, TLS}: every upstream request is the one made from ITS request alone (route query & its own query, its own path); run twice, the second time with the race detector: a data race inside fabio is a violation (this replaces 'one request at a time per route target' for these cases)",
         "scope: a strip prefix that ends inside an escape is not asked; hop-by-hop headers are net/http's; User-Agent suppression and added forwarding headers are not judged here (C08)",
     ]
     run_prop(ctx, "C07", ctx.pick(8, 1),
              "one case per finished pipeline run TLC enumerated (quick: the slice selected by the seed; thorough: the full product); non-trivial = forwarded case with strip/prepend applying, escapes in the path, a host option or a target query",
-             _c07_pred, _c07_corrupt, "path", after=_c07_main)
+             _c07_pred, _c07_corrupt, "path", after=_c07_after)
 
 
 MAIN_SUBS = {"amp", "pagehist", "flip", "rest", "status", "interim", "enc"}
@@ -278,6 +279,54 @@ def _c07_main(ctx, cases):
     ctx.log("package main wiring (main.newHTTPProxy, main.watchNoRouteHTML): %d cases replayed, %d failed, %.0fs" % (s["cases"], s["fails"], r.wall))
     ctx.cover("main-wiring", traces_validated_against_impl=s["ran"], evaluations=s["ran"])
     ctx.take_failures(r, "c07-main")
+
+
+def _c07_after(ctx, cases):
+    _c07_main(ctx, cases)
+    _c07_sim(ctx, cases)
+
+
+def _c07_sim(ctx, cases):
+    """The cases whose requests are in the proxy at the same moment (HttpProxy!TogetherUps) once more, built with the
+    race detector; then the binding self-test of that oracle (one request's expected query swapped for another's)."""
+    sub = os.path.join(ctx.tmp, "c07.sim.cases")
+    n = filter_cases(cases, sub, lambda c: c["c"]["together"] and c["out"]["kind"] == "upstream" and c.get("each"))
+    if n == 0:
+        ctx.inconclusive("no simultaneous-request cases")
+        return
+    what = "C07 simultaneous requests through one route (race detector)"
+    r = ctx.gotest("proxy", FILES["C07"], "^TestVerifC07Sim$", env={"VERIF_IN": sub, "VERIF_C07_SIM_ROUNDS": str(ctx.pick(40, 150))},
+                   timeout=900, race=True)
+    if crashed(ctx, "C07", r, what):
+        return
+    if raced(ctx, "C07", r, what):
+        if r.summary is not None:
+            ctx.take_failures(r, "c07")
+        return
+    r = check_run(ctx, "C07", r, what)
+    if r is None:
+        return
+    s = r.summary
+    ctx.log("simultaneous requests: %d cases x 8 connections, repeated, with the race detector: %d failed, %.0fs" % (s["cases"], s["fails"], r.wall))
+    ctx.cover("simultaneous-race", traces_validated_against_impl=s["ran"], evaluations=8 * s["ran"])
+    ctx.take_failures(r, "c07")
+    # binding self-test: request 3 is expected to arrive with the query of request 1 -> must be rejected, the good copy not
+    c = first_case(sub, lambda c: len(c["c"]["routes"][0]["tquery"]) > 0)
+    if c is None:
+        ctx.inconclusive("no simultaneous-request case with a target query for the binding self-test")
+        return
+    good = json.loads(json.dumps(c))
+    c["each"][2]["query"] = c["each"][0]["query"]
+    one = os.path.join(ctx.tmp, "c07.sim.selftest")
+    vf.write_ndjson(one, [good, c])
+    t = run_harness(ctx, "C07", one, "C07 simultaneous self-test", timeout=300, env={"VERIF_C07_SIM_ROUNDS": "3"})
+    if t is None:
+        return
+    hit = [f for f in t.of_kind("fail") if f.get("features", {}).get("clause") == "query" and f.get("features", {}).get("simultaneous")]
+    if not hit:
+        ctx.inconclusive("binding self-test: a swapped expectation among simultaneous requests was NOT rejected by the harness")
+    elif any(f.get("features", {}).get("step") != 3 for f in t.of_kind("fail")):
+        ctx.inconclusive("binding self-test: requests other than the corrupted one failed among the simultaneous ones")
 
 
 def replay(ctx, rp):
